@@ -1362,6 +1362,23 @@ def rule_blocklabels(ctx) -> RuleResult:
                        f"the labels announced for each block ('{src}') are always sorted, but the block's values are ordered by chunk_reduce according to `sort`: "
                        "with sort=False (first-appearance order) a block whose labels do not first appear in ascending order -- e.g. a missing label, coded -1, "
                        "that is not the block's first element -- has its values paired with the wrong labels (method='blockwise')")
+    # block-order clause: the concatenated label lists are laid next to the blocks' results in BLOCK order, so every definition of the per-block
+    # sequence walks the blocks (their slices) -- never the values of a mapping that happens to have one entry per block (the cohort map is ordered
+    # by each cohort's smallest label)
+    for c in conc:
+        src = c.args[0].id
+        defs = [a for a in walk_own(f.node) if isinstance(a, ast.Assign) and any(isinstance(t, ast.Name) and t.id == src for t in a.targets)]
+        for a in defs:
+            comps = [x for x in ast.walk(a.value) if isinstance(x, (ast.GeneratorExp, ast.ListComp))]
+            for comp in comps[:1]:
+                it = comp.generators[0].iter
+                mapping_view = isinstance(it, ast.Call) and isinstance(it.func, ast.Attribute) and it.func.attr in ("values", "items", "keys")
+                res.inst(f"dask_groupby_agg: '{src}' built by walking '{norm(it)[:40]}': a view of a mapping: {mapping_view}", f"order|{src}|{norm(it)[:30]}")
+                if mapping_view:
+                    res.report(f"core.dask_groupby_agg|block-labels-from-a-mapping|{norm(it)[:30]}", f.where(a), f.qualname,
+                               f"'{norm(a)[:70]}' takes the per-block label lists from '{norm(it)[:40]}': a mapping's order is its insertion / sort order (the cohort map is "
+                               "ordered by each cohort's smallest label), not the order of the blocks, whose results are concatenated next to these labels -- blocks that hold "
+                               "their labels in non-ascending order get their values announced under other labels")
     # the same obligation for the label entry of every result dictionary in the combine step: values come out of chunk_reduce(sort=sort),
     # so the "groups" stored next to them may not come from an always-sorting helper that ignores `sort`
     SORTERS = ("_unique", "_find_unique_groups", "np.unique", "np.sort", "sorted")
